@@ -26,6 +26,7 @@ type ServerConn struct {
 	Name    string
 	Peer    string
 	Handle  func(c *ServerConn, frame []byte) Reply
+	Framer  func(c *ServerConn, buf []byte) int // nil: Kafka framing (4-byte length prefix, stripped before Handle)
 	LatUs   int64
 	MaxFrag int
 
@@ -66,7 +67,29 @@ func (c *ServerConn) Write(p []byte) (int, error) {
 		return len(p), nil
 	}
 	c.in = append(c.in, p...)
-	for len(c.in) >= 4 && !c.peerClosed {
+	for !c.peerClosed {
+		if c.Framer != nil {
+			// a protocol with its own framing: Framer says how many bytes the next whole message takes (0: not yet)
+			n := c.Framer(c, c.in)
+			if n <= 0 || n > len(c.in) {
+				break
+			}
+			frame := append([]byte(nil), c.in[:n]...)
+			c.in = c.in[n:]
+			c.Frames++
+			r := c.Handle(c, frame)
+			c.out = append(c.out, r.Data...)
+			if r.Close {
+				c.peerClosed = true
+			}
+			if r.Stall > 0 {
+				c.stall = r.Stall
+			}
+			continue
+		}
+		if len(c.in) < 4 {
+			break
+		}
 		n := int(binary.BigEndian.Uint32(c.in[:4]))
 		if n < 0 || len(c.in) < 4+n {
 			break
